@@ -1113,6 +1113,89 @@ pub mod batchfx {
     }
 }
 
+// ---------------------------------------------------------------- R-INFLIGHT / R-LOCKORDER
+pub mod inflight {
+    use std::sync::atomic::{AtomicUsize, Ordering};
+    use std::sync::Mutex;
+    pub struct W {
+        pub active: AtomicUsize,
+        pub a: Mutex<Vec<u32>>,
+        pub b: Mutex<Vec<u32>>,
+    }
+    impl W {
+        pub fn ok_loop(&self, jobs: &[u32]) -> u32 {
+            let mut done = 0;
+            for &j in jobs {
+                self.active.fetch_add(1, Ordering::Relaxed);
+                let failed = j % 7 == 0;
+                self.active.fetch_sub(1, Ordering::Relaxed);
+                if failed {
+                    continue;
+                }
+                done += 1;
+            }
+            done
+        }
+        pub fn bad_loop(&self, jobs: &[u32]) -> u32 {
+            let mut done = 0;
+            for &j in jobs {
+                self.active.fetch_add(1, Ordering::Relaxed);
+                if j % 7 == 0 {
+                    continue;
+                }
+                done += 1;
+                self.active.fetch_sub(1, Ordering::Relaxed);
+            }
+            done
+        }
+    }
+}
+pub mod lockorder_ok {
+    use std::sync::Mutex;
+    pub struct Q {
+        pub a: Mutex<Vec<u32>>,
+        pub b: Mutex<Vec<u32>>,
+    }
+    impl Q {
+        pub fn balance(&self) {
+            let mut a = self.a.lock().unwrap();
+            let mut b = self.b.lock().unwrap();
+            if let Some(x) = a.pop() {
+                b.push(x);
+            }
+        }
+        pub fn steal(&self) -> Option<u32> {
+            if let Some(x) = self.b.lock().unwrap().pop() {
+                return Some(x);
+            }
+            self.a.lock().unwrap().pop()
+        }
+    }
+}
+pub mod lockorder_bad {
+    use std::sync::Mutex;
+    pub struct Q {
+        pub a: Mutex<Vec<u32>>,
+        pub b: Mutex<Vec<u32>>,
+    }
+    impl Q {
+        pub fn balance(&self) {
+            let mut a = self.a.lock().unwrap();
+            let mut b = self.b.lock().unwrap();
+            if let Some(x) = a.pop() {
+                b.push(x);
+            }
+        }
+        pub fn steal(&self) -> Option<u32> {
+            let mut b = self.b.lock().unwrap();
+            if let Some(x) = b.pop() {
+                return Some(x);
+            }
+            self.a.lock().unwrap().pop()
+        }
+    }
+}
+
 // ---------------------------------------------------------------- R-VARIANT
 pub mod variant {
     pub enum Storage {
